@@ -8,7 +8,10 @@ import sys
 import json
 import argparse
 
-os.environ.setdefault('PYTHONHASHSEED', '0')
+if os.environ.get('PYTHONHASHSEED') != '0':
+    # string hashing is part of the process state (set / dict iteration order): fix it so that two runs explore in the same order and count the same
+    os.environ['PYTHONHASHSEED'] = '0'
+    os.execv(sys.executable, [sys.executable] + sys.argv)
 HERE = os.path.dirname(os.path.abspath(__file__))
 sys.path.insert(0, HERE)
 
@@ -22,9 +25,6 @@ def main():
     ap.add_argument('--selftest', action='store_true')
     ap.add_argument('--jobs', type=int)
     a = ap.parse_args()
-    if os.environ.get('PYTHONHASHSEED') != '0':
-        os.environ['PYTHONHASHSEED'] = '0'
-        os.execv(sys.executable, [sys.executable] + sys.argv)
     from mc import core
     if a.selftest:
         from selftest import reference
